@@ -255,7 +255,11 @@ DevSig(d, e) ==
                    \/ ("in_new" \in DOMAIN e.calib[k] /\ e.calib[k].in_new.s = 2)
                    \/ ("outsc_before" \in DOMAIN e.calib[k] /\ e.calib[k].outsc_before.s = 2)
                    \/ ("insc_before" \in DOMAIN e.calib[k] /\ e.calib[k].insc_before.s = 2))
-            \/ (e.act = "Forward" /\ e.outcome = "ok" /\ (~e.out.finite \/ \E k \in 1..Len(e.recipes) : \E j \in 1..Len(e.recipes[k].out) : e.recipes[k].out[j].s = 2 \/ e.recipes[k].ref[j].s = 2))
+            \/ (e.act = "Forward" /\ e.outcome = "ok" /\ (~e.out.finite \/ \E k \in 1..Len(e.recipes) : \E j \in 1..Len(e.recipes[k].out) :
+                    \/ e.recipes[k].out[j].s = 2 \/ e.recipes[k].ref[j].s = 2
+                    \* an infinite intermediate re-quantized with the output scale lands exactly on the end of the float8 grid
+                    \/ (e.recipes[k].out_kind = "QBytes" /\ e.recipes[k].out_qtype \in {"qfloat8", "qfloat8_e4m3fn", "qfloat8_e5m2"}
+                        /\ SAbs(e.recipes[k].out[j]) = BMul(SAbs(e.recipes[k].outscale), BOfInt(IF e.recipes[k].out_qtype = "qfloat8_e5m2" THEN 57344 ELSE 448)))))
             \/ (e.act \in {"Freeze", "DeepCopy", "ToDevice"} /\ e.outcome = "ok" /\ \E k \in 1..Len(e.out_before) : ~e.out_before[k].finite)
             \/ (e.act = "Load" /\ e.outcome = "ok" /\ \E k \in 1..Len(e.out_saved) : ~e.out_saved[k].finite)
     [] d = "Dev_C09_DeepCopyQBits" -> Judge = "C09" /\ DeepCopyDevSig(e)
